@@ -14,12 +14,13 @@ Depends/Instance.lean (installation + compact dispatcher).  Helper lemmas: Depen
 Depends/InstanceLemmas.lean.  The specification's `expectedCalls` / `changedKeys` are those of the
 oracle (Depends/Spec.lean).
 
-THREE parts of the statement are false of the code (and of the model, which mirrors it); each is
-kept as a `def C06_full_*`, refuted from a concrete witness that the check replays on the real
-library (corpus/C06/*.json), and proved in a `_partial` form with the excluded class explicit:
-  (a) an inherited table entry keeps the dependency list / on_init computed in the ancestor;
-  (b) a method depending on a value AND a Parameter attribute has two watchers: one batch calls it twice;
-  (c) a function decorated with the same Parameter twice is registered twice for it.
+ONE part of the statement is false of the code (and of the model, which mirrors it): a method
+depending on a value AND a Parameter attribute has one watcher per kind, so one batch that changes
+both kinds calls it once per kind.  It is kept as `def C06_full_batch`, refuted from a concrete
+witness that the check replays on the real library (corpus/C06/two-groups.json), and proved in a
+`_partial` form with the excluded class explicit.  Two other parts were false of the pinned commit
+and hold since the repairs a6564de (inherited entries are resolved again on the subclass) and
+7e0a217 (function form de-duplicates the Parameter names): `C06_full_deps_holds`, `C06_full_fn_holds`.
 Not modelled: dotted dependencies (C07), async/generator methods, `param.trigger`, methods that
 assign parameters themselves (cascades are C03/C04).
 -/
@@ -33,16 +34,11 @@ namespace ParamVerif.Depends
 MRO, the table of a well-formed class registers no method name twice. -/
 theorem table_one_entry_per_method (h : Hierarchy) (fuel : Nat) (c : Cls) (t : List Entry)
     (hwf : wfClassB h c = true) (ht : dependsTable h fuel c = .ok t) : (t.map (·.name)).Nodup := by
-  obtain ⟨ts, d, _, hd, htab⟩ := dependsTable_spec ht
-  obtain ⟨own, anc, hown, _, rfl⟩ := tableOf_spec htab
-  obtain ⟨d', rest, hd', _, _, hnd⟩ := wfClassB_spec hwf
-  rw [hd] at hd'
-  simp only [Option.some.injEq] at hd'
-  subst hd'
+  obtain ⟨_, d, _, own, anc, inh, _, _, _, _, hnd, hown, _, hinh, rfl⟩ := table_shape hwf ht
   have hownN : ((own ++ ([] : List Entry)).map (·.name)).Nodup := by
     rw [List.append_nil, ownEntries_names h c fuel d.methods own hown]
     exact List.Nodup.sublist (List.Sublist.map (fun m : Method => m.name) List.filter_sublist) hnd
-  have := foldl_inherit_nodup h c own anc.flatten [] hownN
+  have := (inheritFold_spec h c fuel own anc.flatten [] inh hinh hownN).1
   rw [List.map_append] at this ⊢
   exact (List.perm_append_comm.nodup_iff).1 this
 
@@ -53,28 +49,24 @@ a decorated one keeps exactly one. -/
 theorem entry_iff_resolved_method_watches (h : Hierarchy) (fuel : Nat) (c : Cls) (t : List Entry)
     (hwf : wfClassB h c = true) (ht : dependsTable h fuel c = .ok t) (n : Name) :
     n ∈ t.map (·.name) ↔ resolvedWatches h c n = true := by
-  obtain ⟨ts, d, hts, hd, htab⟩ := dependsTable_spec ht
-  obtain ⟨own, anc, hown, hanc, rfl⟩ := tableOf_spec htab
-  obtain ⟨d', rest, hd', hmro, hlt, hnd⟩ := wfClassB_spec hwf
-  rw [hd] at hd'
-  simp only [Option.some.injEq] at hd'
-  subst hd'
+  obtain ⟨ts, d, rest, own, anc, inh, hts, hd, hmro, hlt, hnd, hown, hanc, hinh, rfl⟩ := table_shape hwf ht
   have hmroOf : mroOf h c = c :: rest := by simp [mroOf, hd, hmro]
-  -- a watch-decorated own function of a class is what that class resolves, and it is in the own entries
-  have ownWatch : ∀ (m : Method), m ∈ d.methods → resolveMethod h c m.name = some (c, m) := by
-    intro m hm
-    simp [resolveMethod, hmroOf, resolveIn, ownMethod, hd, find_name_of_nodup hnd hm]
+  have hownN : ((own ++ ([] : List Entry)).map (·.name)).Nodup := by
+    rw [List.append_nil, ownEntries_names h c fuel d.methods own hown]
+    exact List.Nodup.sublist (List.Sublist.map (fun m : Method => m.name) List.filter_sublist) hnd
+  obtain ⟨_, _, hmem, hcov⟩ := inheritFold_spec h c fuel own anc.flatten [] inh hinh hownN
   constructor
   · intro hn
     obtain ⟨e, he, rfl⟩ := List.mem_map.1 hn
     rcases List.mem_append.1 he with h1 | h1
-    · rcases foldl_inherit_mem h c own _ _ e h1 with h2 | ⟨_, h2⟩
+    · rcases hmem e h1 with h2 | ⟨⟨k, m, di, hr, hdi, hw, _⟩, _⟩
       · cases h2
-      · exact h2
+      · simp [resolvedWatches, hr, hdi, hw]
     · obtain ⟨_, m, di, hm, hdi, hw, hname, _⟩ := ownEntries_mem h c fuel d.methods own hown e h1
       rw [← hname]
-      simp [resolvedWatches, ownWatch m hm, hdi, hw]
+      simp [resolvedWatches, resolve_own hd hmro hnd hm, hdi, hw]
   · intro hw
+    have hw0 := hw
     unfold resolvedWatches at hw
     cases hr : resolveMethod h c n with
     | none => rw [hr] at hw; simp at hw
@@ -102,136 +94,80 @@ theorem entry_iff_resolved_method_watches (h : Hierarchy) (fuel : Nat) (c : Cls)
             exact List.mem_map.2 ⟨m, List.mem_filter.2 ⟨hmk, hwd⟩, hmn⟩
           rw [List.map_append]
           exact List.mem_append_right _ this
-        · -- defined in an ancestor: that ancestor's table has an own entry for it
+        · -- defined in an ancestor: that ancestor's table has an own entry for it, the loop meets it
           have hkc : k < c := hlt k hk'
           obtain ⟨_, hks⟩ := tablesUpTo_spec h fuel (c + 1) ts hts
           obtain ⟨dk', tk, hdk', htk, htabk⟩ := hks k (Nat.lt_succ_of_lt hkc)
           rw [hdk] at hdk'
           simp only [Option.some.injEq] at hdk'
           subst hdk'
-          obtain ⟨ownk, _, hownk, _, htkeq⟩ := tableOf_spec htabk
+          obtain ⟨ownk, _, _, hownk, _, _, htkeq⟩ := tableOf_spec htabk
           have hnk : n ∈ ownk.map (·.name) := by
             rw [ownEntries_names h k fuel dk.methods ownk hownk]
             exact List.mem_map.2 ⟨m, List.mem_filter.2 ⟨hmk, hwd⟩, hmn⟩
           obtain ⟨dep, hdep, hdn⟩ := List.mem_map.1 hnk
           have hdeptk : dep ∈ tk := by rw [htkeq]; exact List.mem_append_right _ hdep
-          obtain ⟨ta, hta, hta'⟩ := ancestorTables_of_mem hanc k (by rw [hmro]; exact hk')
+          obtain ⟨ta, hta, hta'⟩ := ancestorTables_of_mem hanc k hk'
           rw [List.getElem?_take_of_lt hkc, htk] at hta'
           simp only [Option.some.injEq] at hta'
           subst hta'
           have hflat : dep ∈ anc.flatten := List.mem_flatten.2 ⟨tk, hta, hdeptk⟩
-          have hres : resolvedWatches h c dep.name = true := by
-            rw [hdn]
-            simp [resolvedWatches, resolveMethod, hmroOf, hr, hdi, hw]
-          have := foldl_inherit_covers h c own anc.flatten [] dep hflat hres
+          have := hcov dep hflat (by rw [hdn]; exact hw0)
           rw [hdn] at this
           rw [List.map_append] at this ⊢
           rcases List.mem_append.1 this with h1 | h1
           · exact List.mem_append_right _ h1
           · exact List.mem_append_left _ h1
 
-/-- every entry of a table is the own entry of its origin class; in particular all its `PInfo`s
-carry that one class (so instantiation groups them by `what` only) -/
-theorem table_entries_from_origin (h : Hierarchy) (fuel : Nat) (c : Cls) (t : List Entry)
-    (ht : dependsTable h fuel c = .ok t) : ∀ e ∈ t, EntryOf h fuel e ∧ ∀ d ∈ e.deps, d.cls = e.origin := by
-  intro e he
-  obtain ⟨ts, d, hts, _, _⟩ := dependsTable_spec ht
-  have hmem : t ∈ ts := by
-    unfold dependsTable at ht
-    rw [hts] at ht
-    simp only at ht
-    split at ht
-    · rename_i t' ht'
-      simp only [Except.ok.injEq] at ht
-      subst ht
-      exact List.mem_of_getElem? ht'
-    · simp at ht
-  have hE := tables_entryOf h fuel (c + 1) ts hts t hmem e he
-  refine ⟨hE, ?_⟩
-  obtain ⟨_, _, di, _, _, _, _, _, _, _, hdeps⟩ := hE
-  exact depsOn_cls h e.origin fuel (some di) e.deps hdeps
+/-- **C06 (the registered dependencies are those of the resolved method).**  Every entry of the table
+of a class — created by the class or inherited, in chains and diamonds alike — carries exactly what
+the function the class resolves for the name declares, resolved ON THAT CLASS (method-name
+dependencies included): dependency list, `queued`, `on_init`; every `PInfo` carries the class. -/
+theorem entry_deps_are_deps_of_resolved_method (h : Hierarchy) (fuel : Nat) (c : Cls) (t : List Entry)
+    (hwf : wfClassB h c = true) (ht : dependsTable h fuel c = .ok t) (e : Entry) (he : e ∈ t) :
+    Resolved h fuel c e ∧ methodDependencies h fuel c e.name = .ok e.deps ∧ ∀ d ∈ e.deps, d.cls = e.origin := by
+  obtain ⟨_, d, rest, own, anc, inh, _, hd, hmro, _, hnd, hown, _, hinh, rfl⟩ := table_shape hwf ht
+  have hownN : ((own ++ ([] : List Entry)).map (·.name)).Nodup := by
+    rw [List.append_nil, ownEntries_names h c fuel d.methods own hown]
+    exact List.Nodup.sublist (List.Sublist.map (fun m : Method => m.name) List.filter_sublist) hnd
+  have hres : Resolved h fuel c e := by
+    rcases List.mem_append.1 he with h1 | h1
+    · rcases (inheritFold_spec h c fuel own anc.flatten [] inh hinh hownN).2.2.1 e h1 with h2 | ⟨h2, _⟩
+      · cases h2
+      · exact h2
+    · obtain ⟨ho, m, di, hm, hdi, hw, hname, hq, hoi, hdeps⟩ := ownEntries_mem h c fuel d.methods own hown e h1
+      exact ⟨c, m, di, by rw [← hname]; exact resolve_own hd hmro hnd hm, hdi, hw, hq, hoi, hdeps, ho⟩
+  refine ⟨hres, ?_, ?_⟩
+  · obtain ⟨k, m, di, hr, hdi, _, _, _, hdeps, _⟩ := hres
+    simp [methodDependencies, hr, hdi, hdeps]
+  · obtain ⟨_, _, di, _, _, _, _, _, hdeps, ho⟩ := hres
+    rw [ho]
+    exact depsOn_cls h c fuel (some di) e.deps hdeps
 
-/-- **Full statement (a): the registered dependencies (and `on_init`) are those of the method the
-class resolves** — false of the code. -/
+/-- **Full statement (a)**, false of the pinned commit (inherited tuples were copied verbatim), true
+since a6564de: `method_dependencies` and the registered dependencies agree for every entry. -/
 def C06_full_deps : Prop :=
   ∀ (h : Hierarchy) (fuel : Nat) (c : Cls) (t : List Entry), wfMroB h = true → dependsTable h fuel c = .ok t →
     ∀ e ∈ t, ∃ ds, methodDependencies h fuel c e.name = .ok ds ∧ ds.map keyOf = e.deps.map keyOf
 
-/-- witness (design probe p29): `A: p, r; @depends('p') m; @depends('m') n` and `F(A): @depends('r') m` -/
+theorem C06_full_deps_holds : C06_full_deps := by
+  intro h fuel c t hwf ht e he
+  have hc : c < h.length := by
+    obtain ⟨_, d, _, hd, _⟩ := dependsTable_spec ht
+    rcases Nat.lt_or_ge c h.length with h1 | h1
+    · exact h1
+    · rw [List.getElem?_eq_none h1] at hd; cases hd
+  exact ⟨e.deps, (entry_deps_are_deps_of_resolved_method h fuel c t (wfMroB_class hwf hc) ht e he).2.1, rfl⟩
+
+/-- the former witness (design probe p29): `A: p, r; @depends('p') m; @depends('m') n` and
+`F(A): @depends('r') m` — the entry of `n` in `F` now lists `r` -/
 def witnessA : Hierarchy := [
   ⟨[], [0], ["p", "r"], [⟨"m", some ⟨[⟨"p", "value"⟩], true, false, false⟩⟩,
                           ⟨"n", some ⟨[⟨"m", "value"⟩], true, false, false⟩⟩]⟩,
   ⟨[0], [1, 0], [], [⟨"m", some ⟨[⟨"r", "value"⟩], true, false, false⟩⟩]⟩]
 
-theorem C06_full_deps_refuted : ¬ C06_full_deps := by
-  intro H
-  have htab : dependsTable witnessA 8 1 = .ok [⟨"n", false, false, [⟨0, "p", "value"⟩], 0⟩,
-      ⟨"m", false, false, [⟨1, "r", "value"⟩], 1⟩] := by rfl
-  obtain ⟨ds, h1, h2⟩ := H witnessA 8 1 _ (by decide) htab ⟨"n", false, false, [⟨0, "p", "value"⟩], 0⟩ (by simp)
-  have hm : methodDependencies witnessA 8 1 "n" = .ok [⟨1, "r", "value"⟩] := by rfl
-  rw [hm] at h1
-  simp only [Except.ok.injEq] at h1
-  subst h1
-  revert h2
-  decide
-
-/-- **C06 (a), partial: the registered dependencies are those of the resolved method** whenever the
-entry was created by the class that defines the method the new class resolves (`k = e.origin`; fails in
-a diamond whose nearest ancestor's table still holds an older entry) and resolving on the origin and
-on the new class visits the same things (`SameDeps`: no method reached through method-name
-dependencies is overridden in between, no Parameter added under an undecorated dependency).
-Then `method_dependencies` and the table agree, and `on_init` / `queued` are the decorator's. -/
-theorem entry_deps_are_deps_of_resolved_method_partial (h : Hierarchy) (fuel : Nat) (c : Cls) (t : List Entry)
-    (hwf : wfMroB h = true) (ht : dependsTable h fuel c = .ok t) (e : Entry) (he : e ∈ t)
-    (k : Cls) (m : Method) (hres : resolveMethod h c e.name = some (k, m)) (hk : k = e.origin)
-    (hsame : SameDeps h e.origin c fuel m.dinfo) :
-    ∃ ds di, methodDependencies h fuel c e.name = .ok ds ∧ ds.map keyOf = e.deps.map keyOf ∧
-      m.dinfo = some di ∧ di.watch = true ∧ e.onInit = di.onInit ∧ e.queued = di.queued := by
-  obtain ⟨⟨da, ma, di, hda, hma, hdi, hw, hname, hq, hoi, hdeps⟩, _⟩ := table_entries_from_origin h fuel c t ht e he
-  subst hk
-  -- the resolved function is the origin's own function of that name
-  obtain ⟨_, hom⟩ := resolveIn_some hres
-  have hlt : e.origin < h.length := by
-    rcases Nat.lt_or_ge e.origin h.length with h1 | h1
-    · exact h1
-    · rw [List.getElem?_eq_none h1] at hda; cases hda
-  obtain ⟨d', _, hd', _, _, hnd⟩ := wfClassB_spec (wfMroB_class hwf hlt)
-  rw [hda] at hd'
-  simp only [Option.some.injEq] at hd'
-  subst hd'
-  have hfind : ownMethod h e.origin e.name = some ma := by
-    simp only [ownMethod, hda]
-    rw [← hname]
-    exact find_name_of_nodup hnd hma
-  rw [hfind] at hom
-  simp only [Option.some.injEq] at hom
-  subst hom
-  have hcong := depsOn_sameDeps h e.origin c fuel ma.dinfo hsame
-  rw [hdi, hdeps] at hcong
-  simp only [keysOfRes] at hcong
-  cases hc : depsOn h c fuel (some di) with
-  | error er => rw [hc] at hcong; simp at hcong
-  | ok ds =>
-    rw [hc] at hcong
-    simp only [Except.ok.injEq] at hcong
-    refine ⟨ds, di, ?_, hcong.symm, hdi, hw, hoi, hq⟩
-    simp [methodDependencies, hres, hdi, hc]
-
-/-- **C06 (a), own entries are exact**: for an entry created by the class itself nothing is assumed —
-the registered dependency list is literally what `method_dependencies` computes. -/
-theorem own_entry_deps_exact (h : Hierarchy) (fuel : Nat) (c : Cls) (t : List Entry)
-    (hwf : wfMroB h = true) (hc : c < h.length) (ht : dependsTable h fuel c = .ok t) (e : Entry) (he : e ∈ t)
-    (ho : e.origin = c) : methodDependencies h fuel c e.name = .ok e.deps := by
-  obtain ⟨⟨da, ma, di, hda, hma, hdi, _, hname, _, _, hdeps⟩, _⟩ := table_entries_from_origin h fuel c t ht e he
-  obtain ⟨d', rest, hd', hmro, _, hnd⟩ := wfClassB_spec (wfMroB_class hwf hc)
-  rw [ho] at hda hdeps
-  rw [hda] at hd'
-  simp only [Option.some.injEq] at hd'
-  subst hd'
-  have : resolveMethod h c e.name = some (c, ma) := by
-    rw [← hname]
-    simp [resolveMethod, mroOf, hda, hmro, resolveIn, ownMethod, find_name_of_nodup hnd hma]
-  simp [methodDependencies, this, hdi, hdeps]
+example : dependsTable witnessA 8 1 = .ok [⟨"n", false, false, [⟨1, "r", "value"⟩], 1⟩,
+    ⟨"m", false, false, [⟨1, "r", "value"⟩], 1⟩] := by rfl
 
 /-! ## Instances: how often a registered method runs -/
 
@@ -273,7 +209,8 @@ theorem method_called_exactly_once_per_update_iff_a_dependency_changed (table : 
     rfl)
   exact ⟨this.1, this.2.1⟩
 
-/-- **Full statement (b): exactly once per batch** — false of the code. -/
+/-- **Full statement (b): exactly once per batch** — false of the code (recorded finding
+`value-and-slot-two-groups`). -/
 def C06_full_batch : Prop :=
   ∀ (table : List Entry) (vals : List (Key × Int)) (e : Entry) (body : List Simple) (w' : IWorld),
     (table.map (·.name)).Nodup → e ∈ table → (∀ d ∈ e.deps, d.cls = e.origin) →
@@ -347,30 +284,15 @@ theorem on_init_adds_exactly_one_call (table : List Entry) (vals : List (Key × 
 
 /-! ## Function form -/
 
-/-- **Full statement (c): a function decorated with Parameter objects runs exactly once per
-assignment that changes one of them** — false of the code when a Parameter is listed twice. -/
-def C06_full_fn : Prop :=
-  ∀ (vals : List (Key × Int)) (label : Name) (names : List Name) (k : Key) (v : Int) (w' : IWorld),
-    runOp (fnWatch (instantiate [] vals) label names) (.simple (.set k v)) = (true, w') →
-    w'.log.count label = expectedCalls (names.map (fun n => ⟨n, "value"⟩)) (changedKeys vals [(k, v)]).1
-
-theorem C06_full_fn_refuted : ¬ C06_full_fn := by
-  intro H
-  have := H [(⟨"p", "value"⟩, 0)] "f" ["p", "p"] ⟨"p", "value"⟩ 1
-    (runOp (fnWatch (instantiate [] [(⟨"p", "value"⟩, 0)]) "f" ["p", "p"]) (.simple (.set ⟨"p", "value"⟩ 1))).2 (by rfl)
-  revert this
-  decide
-
-/-- **C06 (c), partial: the same holds for functions decorated with Parameter-object dependencies**
-that list every Parameter once: exactly one call per assignment / `update` / batch that changes at
-least one of them (a single watcher, hence also exactly once per batch). -/
-theorem function_form_called_exactly_once_partial (table : List Entry) (w w' : IWorld) (label : Name)
+/-- **C06 (the same holds for functions decorated with Parameter-object dependencies).**  For any
+list of Parameters, listed once or several times: exactly one call per assignment / `update` / batch
+that changes at least one of them (one watcher, hence also exactly once per batch). -/
+theorem function_form_called_exactly_once (table : List Entry) (w w' : IWorld) (label : Name)
     (names : List Name) (op : Op) (hW : InstanceWorld table w) (hl : label ∉ table.map (·.name))
-    (hnames : names.Nodup)
     (hr : runOp (fnWatch w label names) op = (true, w')) (hfresh : ∀ x ∈ w.regs, x.method ≠ label) :
     w'.log.count label = w.log.count label +
       expectedCalls (names.map (fun n => ⟨n, "value"⟩)) (changedKeys w.vals (opAssignments op)).1 := by
-  have hW' := fnWatch_instanceWorld table w label names hW hl hnames
+  have hW' := fnWatch_instanceWorld table w label names hW hl
   obtain ⟨extra, h1, h2⟩ := hW'.regs
   have hid : ((fnWatch w label names).regs.map (·.id)).Nodup := by rw [hW'.ids]; exact List.nodup_range'
   have hp : ∀ x ∈ (fnWatch w label names).regs, x.params.Nodup := by
@@ -379,21 +301,43 @@ theorem function_form_called_exactly_once_partial (table : List Entry) (w w' : I
     rcases List.mem_append.1 hx with h3 | h3
     · exact installAll_params table 0 x h3
     · exact (h2 x h3).2
-  have hx : (fnWatch w label names).regs.filter (fun y => y.method = (⟨w.regs.length, label, names, "value", false, 0⟩ : IWatcher).method) =
-      [⟨w.regs.length, label, names, "value", false, 0⟩] := by
+  have hx : (fnWatch w label names).regs.filter (fun y => y.method = (⟨w.regs.length, label, dedupInto [] names, "value", false, 0⟩ : IWatcher).method) =
+      [⟨w.regs.length, label, dedupInto [] names, "value", false, 0⟩] := by
     simp only [fnWatch, List.filter_append]
     have : w.regs.filter (fun y => decide (y.method = label)) = [] := by
       rw [List.filter_eq_nil_iff]
       intro y hy hm
       exact hfresh y hy (by simpa using hm)
     simp [this]
-  exact single_watcher_calls (fnWatch w label names) w' ⟨w.regs.length, label, names, "value", false, 0⟩ op
+  have := single_watcher_calls (fnWatch w label names) w' ⟨w.regs.length, label, dedupInto [] names, "value", false, 0⟩ op
     hW'.batch hW'.events hW'.queued hid hp hx hr
+  rw [this]
+  congr 1
+  apply expectedCalls_congr
+  intro k
+  simp only [List.mem_map, (dedupInto_spec names [] (by simp)).2, List.not_mem_nil, false_or]
 
-/-- the three false parts together -/
+/-- **Full statement (c)**, false of the pinned commit when a Parameter is listed twice, true since
+7e0a217. -/
+def C06_full_fn : Prop :=
+  ∀ (vals : List (Key × Int)) (label : Name) (names : List Name) (k : Key) (v : Int) (w' : IWorld),
+    runOp (fnWatch (instantiate [] vals) label names) (.simple (.set k v)) = (true, w') →
+    w'.log.count label = expectedCalls (names.map (fun n => ⟨n, "value"⟩)) (changedKeys vals [(k, v)]).1
+
+theorem C06_full_fn_holds : C06_full_fn := by
+  intro vals label names k v w' hr
+  have := function_form_called_exactly_once [] (instantiate [] vals) w' label names (.simple (.set k v))
+    (instantiate_instanceWorld [] vals) (by simp) hr (by simp [instantiate, installAll])
+  simpa [instantiate, initCalls, opAssignments, simpleAssignments] using this
+
+-- the former witness: the same Parameter twice, one call
+example : ((runOp (fnWatch (instantiate [] [(⟨"p", "value"⟩, 0)]) "f" ["p", "p"]) (.simple (.set ⟨"p", "value"⟩ 1))).2.log.count "f") = 1 := by
+  decide
+
+/-- the statement as a whole: (a) and (c) hold, (b) does not -/
 def C06_full : Prop := C06_full_deps ∧ C06_full_batch ∧ C06_full_fn
 
-theorem C06_full_refuted : ¬ C06_full := fun h => C06_full_deps_refuted h.1
+theorem C06_full_refuted : ¬ C06_full := fun h => C06_full_batch_refuted h.2.1
 
 /-! ## Non-vacuity -/
 
@@ -410,7 +354,6 @@ example : (dependsTable exH 8 1).toOption.map (·.map (·.name)) = some ["n", "m
 example : (dependsTable exH 8 2).toOption.map (·.map (·.name)) = some ["n"] := by decide     -- undecorated override
 example : (dependsTable exH 8 3).toOption.map (·.map (·.name)) = some ["n", "m"] := by decide -- diamond: once
 example : resolvedWatches exH 2 "m" = false ∧ resolvedWatches exH 3 "m" = true := by decide
-example : SameDeps exH 0 0 3 (some ⟨[⟨"m", "value"⟩, ⟨"q", "value"⟩], true, false, true⟩) := sameDeps_refl exH 0 3 _
 -- an instance of class 0: `n` has on_init, `p = 1` calls m and n once each, a second `p = 1` nothing
 def exTable : List Entry := [⟨"m", false, false, [⟨0, "p", "value"⟩], 0⟩,
   ⟨"n", false, true, [⟨0, "p", "value"⟩, ⟨0, "q", "value"⟩], 0⟩]
